@@ -27,14 +27,23 @@ class C05(TxnAreaCheck):
         "linearizability is proved of the protocol model; the source is tied to it by event ORDER (tie A) and by sampled histories (tie B)",
     ]
 
+    _run_tier = None
+
     def harness_args(self, tier):
         a = ["tier=" + tier]
         if os.environ.get("VERIF_C05_SECONDS"):
             a.append("seconds=" + os.environ["VERIF_C05_SECONDS"])
+        elif tier == "thorough" and self._run_tier == "quick":
+            # The fallback search of a QUICK run (TieCheck.run step 2b: an obligation broke, e.g. tie A, and the run has no
+            # concrete failing input) asks for the thorough generators; unbounded that is 300 s of stress + 900 k events
+            # for coqc (~20 min). Thorough-sized rounds, but a bounded run: 60 s of stress, <= 60 k events (2-4 min on the
+            # loaded machine; C05-B measured 5.7 min with 90 s / 120 k).
+            a += ["seconds=" + os.environ.get("VERIF_C05_SEARCH_SECONDS", "60"), "events=" + os.environ.get("VERIF_C05_SEARCH_EVENTS", "60000")]
         return a
 
     def run(self, tier, seed, replay=None):
         os.environ["GORACE"] = "halt_on_error=1"
+        self._run_tier = tier
         return super().run(tier, seed, replay)
 
     def extra(self, tier, seed, work, coverage):
@@ -51,7 +60,15 @@ class C05(TxnAreaCheck):
         elif re.search(r"(?m)^(panic:|fatal error:)", log):
             m = re.search(r"(?ms)^(panic:|fatal error:).*", log)
             rep = m.group(0)[:6000]
-            out.append(("the C05 stress binary crashed (seed %s):\n%s" % (seed, rep), rep))
+            # a fatal runtime error (e.g. 'sync: unlock of unlocked mutex') kills the process before the histories are
+            # written: the scripted scenario it was executing (left behind by the harness) and the failures it had
+            # already printed are the failing input
+            ctx = "\n".join(l for l in log.splitlines() if l.startswith("c05: FAILURE"))[:3000]
+            cur = os.path.join(work, "c05_current_scenario.txt")
+            if os.path.exists(cur):
+                ctx = "while executing the scenario: " + open(cur, errors="replace").read()[:2000] + "\n" + ctx
+                os.remove(cur)
+            out.append(("the C05 stress binary crashed (seed %s):\n%s%s" % (seed, ctx + "\n" if ctx else "", rep), ctx + "\n" + rep))
         coverage["race_detector"] = "go build -race; GORACE=halt_on_error=1; reports: %d" % len(out)
         return out
 
